@@ -20,6 +20,7 @@ import contextlib
 import functools
 import hashlib
 import io
+import os
 import json
 import sys
 import traceback
@@ -82,6 +83,7 @@ class Recorder:
                     "case": case,
                     "msg": msg,
                     "mech": mech or {},
+                    "process_env": os.environ.get("VERIF_PROCESS_ENV", "default"),
                 }
             )
 
@@ -328,7 +330,26 @@ def attach(owner, attr, monitor, pre=None, post=None, method=True, capture_stdou
         new = wrapper
     setattr(owner, attr, new)
     _attached.append((owner, attr, raw))
+    if isinstance(owner, type) and _follow_overrides:
+        # a subclass that defines the same method itself would bypass the hook on the base class: hook the override as well
+        todo = list(owner.__subclasses__())
+        while todo:
+            sub = todo.pop()
+            todo.extend(sub.__subclasses__())
+            if attr in sub.__dict__ and not hasattr(_unwrap(sub.__dict__[attr]), "__vmon_orig__"):
+                attach(sub, attr, monitor, pre, post, method, capture_stdout)
     return wrapper
+
+
+_follow_overrides = True
+
+
+def _unwrap(x):
+    if isinstance(x, (staticmethod, classmethod)):
+        return x.__func__
+    if isinstance(x, property):
+        return x.fget
+    return x
 
 
 @contextlib.contextmanager
